@@ -121,6 +121,18 @@ structure UnsafeImpl where
   bounds : List (String × String)
 deriving Repr
 
+/-- one shared-memory site (C12, C15) -/
+structure Site where
+  fn : String
+  fnId : Nat
+  /-- load | store | swap | cas | rmw | clone_load | lock | park | unpark | yield | spin | sleep | retire -/
+  kind : String
+  /-- last field of the receiver: `next`, `value`, `first`, `root`, `size_ctl`, `bins[]`, … -/
+  path : String
+  /-- the `Ordering` arguments as written (success, failure for CAS) -/
+  ords : List String
+deriving Repr
+
 /-- what a serde visitor does when an entry's key is already present (C19) -/
 inductive DupPolicy where
   /-- the new entry replaces the old one (maps) / is dropped (sets): no failure -/
